@@ -49,6 +49,11 @@ def run(ctx):
     scenarios += [('core.Hessdiag', s) for s in history.setter_scenarios('Hessdiag', 2, ctx.tier)]
     scenarios += [('core.Hessian', s) for s in history.setter_scenarios('Hessian', 2, ctx.tier)
                   if 'order' not in s.what]
+    scenarios += [('core.Derivative', s) for s in history.sequence_scenarios('Derivative', None, ctx.tier, ctx.seed)]
+    scenarios += [('core.Jacobian', s) for s in history.sequence_scenarios('Jacobian', 2, ctx.tier, ctx.seed)]
+    if ctx.tier != 'quick':
+        scenarios += [('core.Hessdiag', s) for s in history.sequence_scenarios('Hessdiag', 2, 'quick', ctx.seed)]
+        scenarios += [('core.Hessian', s) for s in history.sequence_scenarios('Hessian', 2, 'quick', ctx.seed)]
     scenarios += [('step_generators.MinStepGenerator', s) for s in history.shared_generator_scenarios()]
     scenarios += [('finite_difference.LogRule.rule', s) for s in history.cache_scenarios()]
     scenarios += [('core.Derivative', s) for s in args_scenarios()]
